@@ -81,16 +81,32 @@ def _cached(kind, key, builder):
             return _built[(kind, key)]
         d = os.path.join(BUILD, '%s-%s' % (kind, key[:16]))
         if not os.path.exists(os.path.join(d, '.ok')):
-            # drop stale caches of the same kind
+            # drop stale caches of the same kind -- but never anything recent: other
+            # checks may be running concurrently against another tree (or building right now)
+            now = time.time()
             for old in glob.glob(os.path.join(BUILD, kind + '-*')):
-                shutil.rmtree(old, ignore_errors=True)
+                try:
+                    if old != d and now - os.path.getmtime(old) > 6 * 3600:
+                        shutil.rmtree(old, ignore_errors=True)
+                except OSError:
+                    pass
             tmp = d + '.tmp%d' % os.getpid()
             shutil.rmtree(tmp, ignore_errors=True)
             os.makedirs(tmp)
             builder(tmp)
             open(os.path.join(tmp, '.ok'), 'w').close()
-            shutil.rmtree(d, ignore_errors=True)
-            os.rename(tmp, d)
+            try:
+                os.rename(tmp, d)
+            except OSError:
+                # somebody else finished the same build first
+                shutil.rmtree(tmp, ignore_errors=True)
+                if not os.path.exists(os.path.join(d, '.ok')):
+                    raise HarnessError('build cache race on ' + d)
+        else:
+            try:
+                os.utime(d)
+            except OSError:
+                pass
         _built[(kind, key)] = d
         return d
 
@@ -177,6 +193,11 @@ def workdir():
     global _work
     if _work is None:
         os.makedirs(WORKROOT, exist_ok=True)
+        # remove scratch directories left behind by runs that were killed
+        for old in os.listdir(WORKROOT):
+            m = re.match(r'w(\d+)-', old)
+            if m and not os.path.exists('/proc/%s' % m.group(1)):
+                shutil.rmtree(os.path.join(WORKROOT, old), ignore_errors=True)
         _work = tempfile.mkdtemp(prefix='w%d-' % os.getpid(), dir=WORKROOT)
         atexit.register(lambda: shutil.rmtree(_work, ignore_errors=True))
     return _work
